@@ -562,7 +562,12 @@ def corrupt_cache(path, kind):
     elif kind == "othersoftware":
         new = gzip.compress(b'{"software":"other"}')
     elif kind == "newerversion":
-        j = json.loads(gzip.decompress(data))
+        try:
+            j = json.loads(gzip.decompress(data))
+        except Exception:       # noqa: an already corrupted cache stays as it is (as in Dsl.v FNewerVersion)
+            return
+        if not isinstance(j, dict):
+            return
         j["cacheFileVersion"] = 2
         new = gzip.compress(json.dumps(j).encode())
     else:
